@@ -90,6 +90,7 @@ def run(ctx):
     # provider-API histories (overlapped closes and provides)
     nstep = 8 if ctx.quick else 150
     stepscs = [check_c12.gen_script(rng, overlap=True)[0] for _ in range(nstep)]
+    stepscs += [x[0] for x in check_c12.stop_while_closing_scripts(rng, 64 if ctx.quick else 200)]
     with cf.ThreadPoolExecutor(max_workers=max(2, vlib.NCPU // 2)) as ex:
         sres = list(ex.map(lambda a: check_c12.run_step(binary, a[1], ctx.work, 'rs%04d' % a[0]), enumerate(stepscs)))
     n_eng, others = 0, set()
